@@ -489,8 +489,11 @@ theorem chunkData_ok (c : Core) (d : Bytes) (pm : Parms) (hg : c.gen = .chunkDat
     subst hc'
     simp [resumeCheck, hg, closedCond_false hcl]; cases c'.kind <;> rfl
 
+theorem esStep_off {c : Core} (h : usesEs c = false) (buf : Bytes) (k : Core → Res) : esStep c buf k = k c := by
+  simp [esStep, h]
+
 theorem chunkEnd_ok (c : Core) (d : Bytes) (pm : Parms) (hg : c.gen = .chunkEnd pm d)
-    (hcl : c.closed = false) (hmax : 0 < c.max) :
+    (hcl : c.closed = false) (hmax : 0 < c.max) (hes : usesEs c = false) :
     Elem.ok ⟨crlf, (· = c),
       { c with parms := updParms c.parms pm, body := c.body ++ d, gen := .chunkSize }⟩ := by
   refine ⟨by simp [crlf], ?_, ?_, ?_⟩
@@ -500,8 +503,13 @@ theorem chunkEnd_ok (c : Core) (d : Bytes) (pm : Parms) (hg : c.gen = .chunkEnd 
     have hlt := lineTry_clean (max := c'.max) (l := []) (by simp [cleanLine]) (by simp) false tail
     simp only [List.nil_append] at hlt
     have hcc : ∀ (x : Core) , x.closed = false → closedCond x tail = false := fun x hx => closedCond_false hx tail
-    simp [stepOn, hg, hlt, chunkDone, closedCond, hcl]
-    cases c'.kind <;> simp
+    have hes' : usesEs { c' with parms := updParms c'.parms pm, body := c'.body ++ d } = false := hes
+    have hcd : chunkDone c' pm d tail =
+        .cont { c' with parms := updParms c'.parms pm, body := c'.body ++ d, gen := .chunkSize } tail := by
+      unfold chunkDone
+      rw [esStep_off hes']
+      simp [closedCond_false (c := { c' with parms := updParms c'.parms pm, body := c'.body ++ d }) hcl]
+    simp [stepOn, hg, hlt, hcd]
   · intro c' hc' p hp hpne
     subst hc'
     refine ⟨c', rfl, ?_⟩
@@ -570,27 +578,27 @@ def chunkElems (c : Core) : List Chunk → List Elem
     ⟨k.sizeLine ++ crlf, (· = c), c1⟩ :: ⟨k.data, (· = c1), c2⟩ :: ⟨crlf, (· = c2), c3⟩ :: chunkElems c3 ks
 
 theorem chain_chunks {f : Core} : ∀ (ks : List Chunk) (c : Core) (more : List Elem),
-    c.gen = .chunkSize → c.closed = false → 0 < c.max → (∀ k ∈ ks, k.wf c.max) →
+    c.gen = .chunkSize → c.closed = false → 0 < c.max → usesEs c = false → (∀ k ∈ ks, k.wf c.max) →
     Chain f { c with parms := chunksParms c.parms ks, body := c.body ++ chunksData ks } more →
     Chain f c (chunkElems c ks ++ more) ∧
     segsOf (chunkElems c ks ++ more) = chunksBytes ks ++ segsOf more := by
   intro ks
   induction ks with
   | nil =>
-    intro c more hg hcl hmax _ hm
+    intro c more hg hcl hmax _ _ hm
     simp only [chunksParms, chunksData, List.append_nil] at hm
     exact ⟨hm, by simp [chunkElems, chunksBytes]⟩
   | cons k ks ih =>
-    intro c more hg hcl hmax hwf hm
+    intro c more hg hcl hmax hes hwf hm
     obtain ⟨hk1, hk2, hk3, hk4⟩ := hwf k (by simp)
     have hn0 : ((k.data.length : Int) = 0) = False := by
       simp; exact hk4
     have e1 := chunkSize_ok c k.sizeLine k.data.length k.pm hg hcl hk1 hk2 hk3
     simp only [hn0, if_false] at e1
     have e2 := chunkData_ok { c with gen := .chunkData k.data.length k.pm } k.data k.pm rfl hcl hk4
-    have e3 := chunkEnd_ok { c with gen := .chunkEnd k.pm k.data } k.data k.pm rfl hcl hmax
+    have e3 := chunkEnd_ok { c with gen := .chunkEnd k.pm k.data } k.data k.pm rfl hcl hmax hes
     obtain ⟨ih1, ih2⟩ := ih { c with parms := updParms c.parms k.pm, body := c.body ++ k.data } more
-      hg hcl hmax (fun k' hk' => hwf k' (by simp [hk']))
+      hg hcl hmax hes (fun k' hk' => hwf k' (by simp [hk']))
       (by simpa [chunksParms, chunksData, List.append_assoc] using hm)
     refine ⟨?_, ?_⟩
     · simp only [chunkElems, List.cons_append]
@@ -668,19 +676,23 @@ theorem script_done {f d c0 : Core} {e : Elem} {es : List Elem} {rest : Bytes}
 
 /-- a script that ends in a body read until the connection closes: everything that follows is body -/
 theorem script_close {f c0 : Core} {e : Elem} {es : List Elem} {rest : Bytes}
-    (hg : f.gen = .bodyClose) (hb : f.body = []) (hcl : f.closed = false)
+    (hg : f.gen = .bodyClose) (hb : f.body = []) (hcl : f.closed = false) (hes : usesEs f = false)
     (hch : Chain f c0 (e :: es)) (ps : List Bytes) (hps : ps.flatten = segsOf (e :: es) ++ rest) :
     feedAll { core := c0, msg := [] } ps = { core := { f with body := rest }, msg := [] } := by
   apply feedAll_script (T := fun t => { core := { f with body := t }, msg := [] }) _ _ hch ps hps
   · intro t
     rw [run_unfold]
-    simp [stepOn, hg, hb, hcl]
+    have hes' := hes
+    unfold usesEs at hes'
+    simp [stepOn, hg, esStep, usesEs, hes', hb, hcl]
   · intro t x
     unfold feed
     rw [parse_eq]
     simp only [resumeCheck, hg]
     rw [run_unfold]
-    simp [stepOn, hcl]
+    have hes' := hes
+    unfold usesEs at hes'
+    simp [stepOn, hg, esStep, usesEs, hes', hcl]
 
 /-! ### whole messages -/
 
@@ -926,6 +938,7 @@ def chunkedDone (cB : Core) (ks : List Chunk) (pm0 : Parms) (Tr : Hdrs) : Core :
     (cB.body ++ chunksData ks)
 
 theorem tail_chunked (cB : Core) (hg : cB.gen = .chunkSize) (hcl : cB.closed = false) (hmax : 0 < cB.max)
+    (hes : usesEs cB = false)
     (ks : List Chunk) (hks : ∀ k ∈ ks, k.wf cB.max)
     (ll : Bytes) (pm0 : Parms) (hll : cleanLine ll) (hlls : ll.length < cB.max)
     (hl0 : chunkLine ll = .ok (0, pm0))
@@ -947,7 +960,7 @@ theorem tail_chunked (cB : Core) (hg : cB.gen = .chunkSize) (hcl : cB.closed = f
   obtain ⟨chK, sgK⟩ := chain_chunks (f := chunkedDone cB ks pm0 Tr) ks cB
     (⟨ll ++ crlf, (· = cN), cT⟩ :: (leaderElems cT (.trailer pm0) [] ts ++
       [⟨crlf, (· = { cT with gen := .chunkTrailer pm0 Tr }), chunkedDone cB ks pm0 Tr⟩]))
-    hg hcl hmax hks ⟨rfl, eL, chT'⟩
+    hg hcl hmax hes hks ⟨rfl, eL, chT'⟩
   refine ⟨_, chK, ?_, by simp⟩
   rw [sgK]
   simp only [segsOf] at sgT ⊢
@@ -1002,7 +1015,8 @@ theorem request_chunked_any_split {c0 : Core} (hfr : Fresh .req c0) (hmax : 0 < 
   have hd := fun tail => req_headDone_chunked (c := reqAtHeadEnd c0 m u v H) hfr.kind rfl hch tail
   obtain ⟨more, hm, hs, _⟩ := tail_chunked
     { reqHeadCore (reqAtHeadEnd c0 m u v H) H with body := [], parms := some [], gen := .chunkSize }
-    rfl rfl hmax ks hks ll pm0 hll hlls hl0 ts Tr hts hTr
+    rfl rfl hmax (by simp [usesEs, reqHeadCore, reqAtHeadEnd, reqAfterStart, cStarted, cWait, hfr.kind])
+    ks hks ll pm0 hll hlls hl0 ts Tr hts hTr
   obtain ⟨e, es, hch', hsg⟩ := chain_reqHead hfr hmax w _ more hd hm
   exact script_done (fun t => run_done _ rfl t) rfl hch' ps (by rw [hsg, hs, hps]; simp [List.append_assoc])
 
@@ -1023,7 +1037,8 @@ theorem response_chunked_any_split {c0 : Core} (hfr : Fresh .rsp c0) (hmax : 0 <
     w.notEvented hch tail
   obtain ⟨more, hm, hs, _⟩ := tail_chunked
     { rspHeadCore' (rspAtHeadEnd c0 ver status reason H) H with body := [], parms := some [], gen := .chunkSize }
-    rfl rfl hmax ks hks ll pm0 hll hlls hl0 ts Tr hts hTr
+    rfl rfl hmax (by simp [usesEs, rspHeadCore', rspHeadCore, w.notEvented, rspAtHeadEnd, rspAfterStart, cStarted, cWait, hfr.kind])
+    ks hks ll pm0 hll hlls hl0 ts Tr hts hTr
   obtain ⟨e, es, hch', hsg⟩ := chain_rspHead hfr hmax pre hpre w _ more hd hm
   exact script_done (fun t => run_done _ rfl t) rfl hch' ps (by rw [hsg, hs, hps]; simp [List.append_assoc])
 
@@ -1040,19 +1055,21 @@ theorem response_close_any_split {c0 : Core} (hfr : Fresh .rsp c0) (hmax : 0 < c
                    body := body, gen := .bodyClose },
         msg := [] } ∧
     parse (close (feedAll ({ core := c0, msg := [] }) ps)) =
-      { core := doneCore { rspHeadCore' (rspAtHeadEnd c0 ver status reason H) H with
-                            closed := true, gen := .bodyClose } body,
+      { core := doneCore (close { core := { rspHeadCore' (rspAtHeadEnd c0 ver status reason H) H with
+                                               gen := .bodyClose } }).core body,
         msg := [] } := by
   have hd := fun tail => rsp_headDone_close (c := rspAtHeadEnd c0 ver status reason H) hfr.kind
     w.notEvented hch hn tail
   obtain ⟨e, es, hch', hsg⟩ := chain_rspHead
     (f := { rspHeadCore' (rspAtHeadEnd c0 ver status reason H) H with body := [], gen := .bodyClose })
     hfr hmax pre hpre w _ [] hd rfl
-  have h1 := script_close (rest := body) rfl rfl rfl hch' ps (by rw [hsg, hps]; simp [segsOf])
+  have h1 := script_close (rest := body) rfl rfl rfl
+    (by simp [usesEs, rspHeadCore', rspHeadCore, w.notEvented, rspAtHeadEnd, rspAfterStart, cStarted, cWait, hfr.kind]) hch' ps (by rw [hsg, hps]; simp [segsOf])
   refine ⟨h1, ?_⟩
   rw [h1, parse_eq]
   simp only [close, resumeCheck]
   rw [run_unfold]
-  simp [stepOn, finishBody, doneCore]
+  have hk : (rspAtHeadEnd c0 ver status reason H).kind = .rsp := hfr.kind
+  simp [stepOn, esStep, usesEs, rspHeadCore', rspHeadCore, w.notEvented, finishBody, doneCore, hk]
 
 end Ioflo.Http
